@@ -17,11 +17,20 @@ RULE = ('cases = generated base history (mapping or file storage) followed by a 
         'step the full query battery on the demo storage is compared with the model of base transactions followed by '
         'change transactions, the base battery with the base model, and (file base) the base file bytes; evaluations = '
         'queries compared; non-trivial = demo history modifying >= 1 object living in the base (boundary between last '
-        'base tid and first change tid is always queried); distinct by program hash')
+        'base tid and first change tid is always queried); a quarter of the cases are BLOB cases: a blob-capable base '
+        '(FileStorage with blob directory, BlobStorage over MappingStorage) filled through a DB, wrapped by DemoStorage with '
+        'temporary changes, a blob FileStorage or a BlobStorage(MappingStorage) as changes; generated blob reads, rewrites, '
+        'appends, creations, removals, commits, aborts, packs, discarding the demo storage and wrapping the base again; '
+        'oracle: a fresh connection reads exactly base-overlaid-with-committed-changes, the base\'s records, data file '
+        'bytes and blob directory (names, bytes, inodes) never change, the base alone reads as before; non-trivial blob '
+        'case = a committed change to a blob living in the base; distinct by program hash')
 ASSUMPTIONS = ['DemoStorage.random replaced by a generated stream of small integers',
+               'blob cases: changes storages given explicitly without blob support are outside the domain (the demo storage '
+               'then does not provide IBlobStorage); a TypeError from DemoStorage.pack over blobified changes (BlobStorage.pack '
+               'has no gc argument) is tolerated: nothing is packed, nothing changes',
                'after a pack through the demo storage only the current state and the base are compared (pack may drop '
                'old revisions; C07 covers pack)']
-BUDGET = {'quick': {'examples': 1200, 'workers': 8},
+BUDGET = {'quick': {'examples': 2000, 'workers': 8},
           'thorough': {'examples': 20000, 'workers': 16}}
 
 CONFIGS = [('mapping', 'default'), ('mapping', 'mapping'), ('mapping', 'fs'),
@@ -48,7 +57,34 @@ def strategy(tier):
             'rand': st.lists(st.integers(1, 12), min_size=1, max_size=8),
             'allow_known': st.just(False),
         })
-    return st.sampled_from(CONFIGS).flatmap(build)
+    plain = st.sampled_from(CONFIGS).flatmap(build)
+    return st.one_of(plain, plain, plain, blob_strategy(n))
+
+
+def blob_strategy(n):
+    """blob-capable base and changes storages (the statement's third storage kind), driven through DB/Connection"""
+    from checks.c13_blobs import DATA
+    i = st.integers(0, 3)
+    dd = st.integers(0, len(DATA) - 1)
+    op = st.one_of(
+        st.tuples(st.just('write'), i, st.sampled_from(['w', 'w', 'a', 'r+']), dd),
+        st.tuples(st.just('write'), i, st.sampled_from(['w', 'a']), dd),
+        st.tuples(st.just('create'), i, dd),
+        st.tuples(st.just('remove'), i),
+        st.tuples(st.just('commit')), st.tuples(st.just('commit')),
+        st.tuples(st.just('abort')),
+        st.tuples(st.just('read'), i),
+        st.tuples(st.just('new-demo')),          # throw the demo storage away, wrap the same base again
+        st.tuples(st.just('pack')),
+    ).map(list)
+    return st.fixed_dictionaries({
+        'mode': st.just('blob'),
+        'base': st.sampled_from(['fs', 'fs', 'bmap']),
+        # (explicitly given changes storages without blob support make a demo storage without blob
+        # support - DemoStorage then does not provide IBlobStorage: outside the domain)
+        'changes': st.sampled_from(['default', 'default', 'fs-blob', 'bmap']),
+        'base_blobs': st.lists(st.tuples(i, dd).map(list), min_size=1, max_size=4),
+        'ops': st.lists(op, min_size=2, max_size=n + 5)})
 
 
 def extra_cases(tier, seed, w, nw):
@@ -74,7 +110,228 @@ class DemoRunner(programs.StorageRunner):
         return tid in self.change_tids
 
 
+def execute_blob(case):
+    import transaction
+    import ZODB
+    from ZODB.blob import Blob, BlobStorage
+    from ZODB.DemoStorage import DemoStorage
+    from ZODB.FileStorage import FileStorage
+    from ZODB.MappingStorage import MappingStorage
+    from checks.c13_blobs import DATA, list_blob_files
+    out = Outcome()
+    out.evals = 0
+    clock.install()
+    locks.install()
+    clock.reset()
+    d = newdir()
+    bdir = os.path.join(d, 'base')
+    os.mkdir(bdir)
+    bblobs = os.path.join(bdir, 'blobs')
+
+    def open_base():
+        if case['base'] == 'fs':
+            return FileStorage(os.path.join(bdir, 'Data.fs'), blob_dir=bblobs)
+        return BlobStorage(bblobs, MappingStorage())
+    base = open_base()
+    names = ['b0', 'b1', 'b2', 'b3']
+    # ---- base history: blobs committed into the base through an ordinary DB
+    db = ZODB.DB(base)
+    tm = transaction.TransactionManager()
+    conn = db.open(tm)
+    base_state = {}
+    for i, di in case['base_blobs']:
+        nme = names[i]
+        if nme not in conn.root():
+            conn.root()[nme] = Blob()
+        with conn.root()[nme].open('w') as f:
+            f.write(DATA[di])
+        base_state[nme] = DATA[di]
+        tm.commit()
+        clock.CLOCK.advance(1)
+    conn.close()
+    if case['base'] == 'fs':
+        db.close()
+        base = open_base()
+    else:
+        # (a mapping base cannot be reopened: detach the DB without closing the storage)
+        db._mvcc_storage = None
+    base_last = base.lastTransaction()
+    base_files = list_blob_files(bblobs)
+    base_records = [(t.tid, [(r.oid, r.data) for r in t]) for t in base.iterator()]
+
+    def base_hash():
+        if case['base'] != 'fs':
+            return None
+        with open(os.path.join(bdir, 'Data.fs'), 'rb') as f:
+            return hashlib.sha1(f.read()).hexdigest()
+    h0 = base_hash()
+    nch = [0]
+
+    def mkchanges():
+        nch[0] += 1
+        cd = os.path.join(d, 'changes%d' % nch[0])
+        os.mkdir(cd)
+        if case['changes'] == 'default':
+            return None
+        if case['changes'] == 'bmap':
+            return BlobStorage(os.path.join(cd, 'blobs'), MappingStorage())
+        return FileStorage(os.path.join(cd, 'C.fs'), blob_dir=os.path.join(cd, 'blobs'))
+
+    def check_base(where):
+        out.evals += 1
+        if base.lastTransaction() != base_last or [(t.tid, [(r.oid, r.data) for r in t]) for t in base.iterator()] != base_records:
+            out.fail((PROPERTY, 'blob-base', 'records-changed'), '%s: the base storage has other transactions than before' % where)
+            return False
+        now = list_blob_files(bblobs)
+        if now != base_files:
+            diff = sorted(set(now) ^ set(base_files)) or sorted(k for k in now if now[k] != base_files[k])
+            out.fail((PROPERTY, 'blob-base', 'blob-files-changed'),
+                     '%s: the blob directory of the base changed: %r' % (where, [os.path.join(*k) for k in diff][:3]))
+            return False
+        if base_hash() != h0:
+            out.fail((PROPERTY, 'blob-base', 'file-bytes-changed'), '%s: the base data file changed' % where)
+            return False
+        return True
+
+    def read_all(c):
+        got = {}
+        root = c.root()
+        for nme in names:
+            if nme in root:
+                with root[nme].open('r') as f:
+                    got[nme] = f.read()
+        return got
+
+    demo = DemoStorage(base=base, changes=mkchanges())
+    ddb = ZODB.DB(demo)
+    dtm = transaction.TransactionManager()
+    dconn = ddb.open(dtm)
+    committed = dict(base_state)
+    work = dict(committed)
+    labels = set()
+    modified_base = False
+    try:
+        for op in case['ops']:
+            k = op[0]
+            clock.CLOCK.advance(0.5)
+            root = dconn.root()
+            if k == 'write':
+                nme = names[op[1]]
+                if nme not in work:
+                    continue
+                mode, data = op[2], DATA[op[3]]
+                with root[nme].open(mode) as f:
+                    if mode == 'r+':
+                        f.seek(0)
+                    f.write(data)
+                old = work[nme]
+                work[nme] = data if mode == 'w' else old + data if mode == 'a' else data + old[len(data):]
+                if nme in base_state:
+                    labels.add('rewrite-of-base-blob')
+            elif k == 'create':
+                nme = names[op[1]]
+                if nme in work:
+                    continue
+                root[nme] = Blob()
+                with root[nme].open('w') as f:
+                    f.write(DATA[op[2]])
+                work[nme] = DATA[op[2]]
+            elif k == 'remove':
+                nme = names[op[1]]
+                if nme not in work:
+                    continue
+                del root[nme]
+                del work[nme]
+            elif k == 'read':
+                nme = names[op[1]]
+                if nme not in work:
+                    continue
+                with root[nme].open('r') as f:
+                    got = f.read()
+                out.evals += 1
+                if got != work[nme]:
+                    out.fail((PROPERTY, 'blob-read', 'writer-mismatch'),
+                             'the writing connection reads %s as %r ; expected %r' % (nme, got[:40], work[nme][:40]))
+                    break
+            elif k in ('commit', 'abort', 'pack', 'new-demo'):
+                if k == 'commit':
+                    dtm.commit()
+                    if work != committed and any(work.get(n) != committed.get(n) for n in base_state):
+                        modified_base = True
+                    committed = dict(work)
+                    labels.add('commit')
+                else:
+                    dtm.abort()
+                    work = dict(committed)
+                if k == 'pack':
+                    try:
+                        ddb.pack(clock.CLOCK.now)
+                        labels.add('pack')
+                    except Exception as e:      # noqa: B902
+                        # (BlobStorage.pack has no gc argument: DemoStorage.pack re-raises the TypeError; nothing
+                        # is packed, nothing changes - not part of the statement)
+                        if type(e).__name__ not in ('FileStorageError', 'PackError') and not (
+                                isinstance(e, TypeError) and 'gc' in str(e)):
+                            raise
+                        labels.add('pack-raised-' + type(e).__name__)
+                if k == 'new-demo':
+                    # the demo storage is discarded: its changes vanish, the base is what it was
+                    dconn.close()
+                    ddb.close = lambda: None
+                    try:
+                        demo.changes.close()
+                    except Exception:           # noqa: B902
+                        pass
+                    demo = DemoStorage(base=base, changes=mkchanges())
+                    ddb = ZODB.DB(demo)
+                    dconn = ddb.open(dtm)
+                    committed = dict(base_state)
+                    work = dict(committed)
+                    labels.add('new-demo-over-same-base')
+                # a second connection reads exactly the committed overlay
+                c2 = ddb.open(transaction.TransactionManager())
+                try:
+                    got = read_all(c2)
+                finally:
+                    c2.close()
+                out.evals += 1
+                if got != committed:
+                    bad = sorted(n for n in set(got) | set(committed) if got.get(n) != committed.get(n))[0]
+                    out.fail((PROPERTY, 'blob-read', 'changes-over-base-mismatch'),
+                             'after %s a fresh connection reads %s as %r ; expected %r' % (
+                                 k, bad, (got.get(bad) or b'')[:40] if bad in got else 'absent',
+                                 committed.get(bad, 'absent') if bad not in committed else committed[bad][:40]))
+                    break
+                if not check_base('after ' + k):
+                    break
+        if not out.failures:
+            # finally: the base alone still shows its own state
+            dtm.abort()
+            dconn.close()
+            bdb = ZODB.DB(base)
+            bc = bdb.open(transaction.TransactionManager())
+            got = read_all(bc)
+            bc.close()
+            out.evals += 1
+            if got != base_state:
+                out.fail((PROPERTY, 'blob-base', 'reads-differ'), 'the base read directly shows %r ; it held %r' % (
+                    {k2: v[:20] for k2, v in got.items()}, {k2: v[:20] for k2, v in base_state.items()}))
+            else:
+                check_base('at the end')
+    finally:
+        try:
+            dtm.abort()
+            demo.close()
+        except Exception:                       # noqa: B902
+            pass
+    out.label('blob-capable', 'blob-base-' + case['base'], 'blob-changes-' + case['changes'], *labels)
+    out.nontrivial = modified_base
+    return out
+
+
 def execute(case):
+    if case.get('mode') == 'blob':
+        return execute_blob(case)
     import ZODB.DemoStorage
     from ZODB.DemoStorage import DemoStorage
     from ZODB.FileStorage import FileStorage
